@@ -480,9 +480,11 @@ IDN_NAMES = ["b\u00fccher.example", "B\u00dcCHER.example", "xn--bcher-kva.exampl
              "\u043f\u0440\u0438\u043c\u0435\u0440.example", "xn--e1afmkfd.example", "m\u00fcnchen.example", "plain.example",
              # spellings the IDNA mapping step (UTS #46: case folding, width, NFKC, ignored code points, other full stops) folds onto the
              # same name: fullwidth letters, a soft hyphen, a decomposed umlaut, an ideographic full stop
-             "\uff50lain.example", "pla\u00adin.example", "bu\u0308cher.example", "plain\u3002example", "\uff22\u00dcCHER.example"]
+             "\uff50lain.example", "pla\u00adin.example", "bu\u0308cher.example", "plain\u3002example", "\uff22\u00dcCHER.example",
+             # a trailing dot spelled as one of the other full stops: the mapping produces "name." - the same host
+             "plain.example\uff0e", "plain.example\u3002", "b\u00fccher.example\uff61", "xn--bcher-kva.example\uff0e", "plain.example."]
 IDN_RULES = ["xn--bcher-kva.example", "b\u00fccher.example", "*.xn--bcher-kva.example", "*.b\u00fccher.example", "xn--e1afmkfd.example",
-             "\u043f\u0440\u0438\u043c\u0435\u0440.example", "plain.example"]
+             "\u043f\u0440\u0438\u043c\u0435\u0440.example", "plain.example", "plain.example\uff0e", "*.b\u00fccher.example\u3002"]
 
 
 def idn_block(ctx, info, rng):
